@@ -68,14 +68,20 @@ def param_validator(rng: random.Random):
         return ("UTupleV", ("Scalar", ("KInt",), None, [], [], []), [], [], Some(("CoTupleOrList",)))
     if r < 0.8:
         return ("ListV", ("Scalar", ("KStr",), None, [("Upper",)], [], []), [], [], None)
-    if r < 0.9:
+    if r < 0.87:
         return ("OptionalV", ("NoneV", None), ("Scalar", ("KInt",), None, [], [], []))
+    if r < 0.92:
+        # a mapping with keys of several types (error messages list them; they cannot be sorted against each other)
+        KI = ("Scalar", ("KInt",), None, [], [], [])
+        return ("DictAnyV", [P(I(1), KI), P(S("name"), KI), P(("VTuple", [S("t"), I(1)]), ("KeyNotRequired", KI))], None, None, rng.random() < 0.5)
     return G.gen_validator(rng, rng.choice([0, 1]), allow_async=False)
 
 
 def value_for(v, rng: random.Random):
     r = rng.random()
     x = G.valid_input(v, rng, [])
+    if v[0] == "DictAnyV" and any(p_.a[0] == "VInt" for p_ in v[1]) and rng.random() < 0.5:
+        return ("VDict", [P(p_.a, S("bad")) for p_ in v[1]])          # every key fails
     if r < 0.3:
         return G.corrupt(x, rng)
     if r < 0.4:
@@ -101,7 +107,8 @@ def gen_deco(rng: random.Random):
             ann = Some(PLAIN[plain][1])
         ovr = Some(param_validator(rng)) if rng.random() < 0.2 else None
         has_default = k in ("PosOnly", "PosOrKw", "KwOnly") and rng.random() < 0.35
-        params.append({"name": i, "kind": k, "ann": ann, "ovr": ovr, "default": has_default, "plain": plain})
+        params.append({"name": i, "kind": k, "ann": ann, "ovr": ovr, "default": has_default, "plain": plain,
+                       "default_none": rng.random() < 0.5})        # the default object is None (a singleton a caller can pass explicitly)
     # defaults: once a positional parameter has one, the following positionals need one too
     seen = False
     for p in params:
@@ -134,6 +141,8 @@ def gen_call(deco, rng: random.Random):
     ps = deco["params"]
 
     def val(p):
+        if p.get("default") and p.get("default_none") and rng.random() < 0.2:
+            return G.NONE                   # the declared default, passed explicitly: an argument like any other
         v = checked_validator(deco, p) or ((p["ovr"] or p["ann"]).x if (p["ovr"] or p["ann"]) else None)
         return value_for(v, rng) if v is not None else rng.choice(G.HOSTILE[:40])
     positional = [p for p in ps if p["kind"] in ("PosOnly", "PosOrKw")]
@@ -229,7 +238,7 @@ def build(c: SigCase, rng=None):
             vo = ctx.validator(p["ovr"].x)
             vobjs[(p["name"], "ovr")] = vo
             overrides[pname(p["name"])] = vo
-        default = inspect.Parameter.empty if not p["default"] else ("default", p["name"])
+        default = inspect.Parameter.empty if not p["default"] else (None if p.get("default_none") else ("default", p["name"]))
         plist.append(inspect.Parameter(pname(p["name"]), PK[p["kind"]], annotation=ann, default=default))
     ret = inspect.Signature.empty
     ret_spec = None
